@@ -84,6 +84,7 @@ class Model(object):
         self.last_index = PAR
         self.index_rows = {}
         self.min_equity = 0.0  # lowest root value seen since last observation (transients)
+        self.run_min_equity = None  # lowest root value after any event of the whole run
         self.ever_negative = False
         self.zero_base_hazard = None
         self.ntrades = 0
@@ -181,6 +182,8 @@ class Model(object):
         if v == v:
             if v < self.min_equity:
                 self.min_equity = v
+            if self.run_min_equity is None or v < self.run_min_equity:
+                self.run_min_equity = v
 
     def reset_equity_watch(self):
         v = self.value(self.root)
